@@ -36,6 +36,8 @@ type (
 	vbiResName   = bufprotosource.ReservedName
 	vbiMD        = protoreflect.MessageDescriptor
 	vbiOD        = protoreflect.OneofDescriptor
+	vbiED        = protoreflect.EnumDescriptor
+	vbiFeatures  = bufprotosource.FeaturesDescriptor
 )
 
 // vLoc is a location token: tag says which location accessor produced it, of is the stub element it belongs to.
@@ -77,6 +79,21 @@ type vbMD struct {
 }
 
 func (m *vbMD) IsMapEntry() bool { return m.mapEntry }
+
+type vbED struct {
+	vbiED
+	closed bool
+}
+
+func (e *vbED) IsClosed() bool { return e.closed }
+
+// vbFeatures: only the enum_type feature location is modelled (present or not).
+type vbFeatures struct {
+	vbiFeatures
+	enumTypeLoc bufprotosource.Location
+}
+
+func (f *vbFeatures) EnumTypeLocation() bufprotosource.Location { return f.enumTypeLoc }
 
 type vbOD struct {
 	vbiOD
@@ -259,8 +276,20 @@ type vbEnum struct {
 	values  []bufprotosource.EnumValue
 	resRngs []bufprotosource.EnumRange
 	resNms  []bufprotosource.ReservedName
+	// ENUM_SAME_TYPE
+	closed         bool
+	hasEnumTypeLoc bool
 }
 
+func (e *vbEnum) AsDescriptor() (protoreflect.EnumDescriptor, error) {
+	return &vbED{closed: e.closed}, nil
+}
+func (e *vbEnum) Features() bufprotosource.FeaturesDescriptor {
+	if e.hasEnumTypeLoc {
+		return &vbFeatures{enumTypeLoc: &vLoc{tag: "enumtype", of: e}}
+	}
+	return &vbFeatures{}
+}
 func (e *vbEnum) Name() string { return e.name }
 func (e *vbEnum) NestedName() string {
 	if e.nested != "" {
